@@ -5,7 +5,11 @@ P=$1; C=$2; T=${3:-quick}
 cd /repo || exit 9
 if ! git diff --quiet; then echo "/repo dirty"; exit 9; fi
 git apply "$P" || { echo "patch does not apply"; exit 9; }
+# the evidence file must keep describing the unchanged tree: save it, restore it afterwards
+cp /verif/evidence/$C.json /tmp/.trymut-evidence-$C.json 2>/dev/null
 cd /verif && ./vcheck "$C" --tier "$T" 2>&1 | grep -E "^(C[0-9]+ tier|VIOLATION|KNOWN|INCONCLUSIVE|BUILD|  signature)" | head -12
 rc=$?
 git -C /repo checkout -- . 
+[ -f /tmp/.trymut-evidence-$C.json ] && mv /tmp/.trymut-evidence-$C.json /verif/evidence/$C.json
+rm -rf /verif/replays/$C/$T-seed${VERIF_SEED:-1}-* 2>/dev/null
 git -C /repo status --short | head -3
